@@ -91,6 +91,12 @@ class Loud {
         echo("~Loud" + this.id);
     }
 }
+class Guard {
+    public constructor() -> Guard = default;
+    public destructor() -> void {
+        echo("~Guard");
+    }
+}
 class LoudKid extends Loud {
     public int extra = 1;
     public constructor(int id) -> LoudKid {
@@ -301,6 +307,8 @@ SNIPPETS = [
     ("loudkid-cycle-scope", ["{", "    LoudKid {v} = new LoudKid({a});", "    Loud {v}b = new LoudKid({b});", "    {v}.peer = {v}b;",
                              "    {v}b.peer = {v};", "}", "echo(burst(18));"]),
     ("loudkid-acyclic", ["LoudKid {v} = new LoudKid({a});", "echo(spin(2));", "destroy {v};", "echo(garbage(2));"]),
+    ("fieldless-guard", ["Guard {v} = new Guard();", "int {w} = garbage({b}) + burst(18);", "destroy {v};", "echo({w});"]),
+    ("fieldless-guard-scope", ["{", "    Guard {v} = new Guard();", "    echo(burst(20));", "}", "echo(\"left\");"]),
     ("binary-operands", ["echo(new Node({a}).val() + garbage({b}) + new Node({b}).val());"]),
 ]
 
